@@ -206,8 +206,29 @@ def sun_visible_fraction(r_sat, r_sun, sun_radius, earth_radius):
     r = np.asarray(r_sat, dtype=float)
     s = np.asarray(r_sun, dtype=float)
     a, b, c = apparent_geometry(r, s, sun_radius, earth_radius)
+    if c <= b - a:
+        return 0.0, (a, b, c)
     frac = 1.0 - lens_area(a, b, c) / (math.pi * a * a)
     return frac, (a, b, c)
+
+
+def fraction_error_scale(a, b, c):
+    """Rounding-error scale of the *textbook* evaluation  A = a^2 acos(x/a) + b^2 acos((c-x)/b) - c y.
+
+    The argument of the second arc cosine is cos(beta) with beta = y/b << 1 (y = half chord), so the arc cosine
+    amplifies a rounding error eps to eps*b/y and the term b^2 acos(.) carries eps*b^3/y; relative to the solar
+    disc area pi a^2 this is the returned value.  Near tangency y -> sqrt(2 a delta) (delta = angular distance to
+    tangency), floored at the resolution of the separation itself.  Returns 0 when the discs are clearly apart or
+    the Sun is clearly fully covered.
+    """
+    eps = 2.220446049250313e-16
+    d_ext, d_int = (a + b) - c, c - abs(b - a)
+    floor = 64 * eps * max(c, 1.0)
+    if d_ext < -floor or d_int < -floor:
+        return 0.0
+    delta = max(min(d_ext, d_int), floor)
+    y = min(math.sqrt(2.0 * min(a, b) * delta), min(a, b))
+    return eps * max(a, b) ** 3 / (y * math.pi * a * a)
 
 
 def srp_accel(r_sat, r_sun, sat_ratio, solar_pressure, au_km, fraction):
